@@ -260,6 +260,13 @@ impl RADAU {
             }));
         }
         h = h.clamp(-hmax, hmax);
+        // The first step may already reach the end of the interval (RADAU5 tests this
+        // before entering the loop); without it the solver steps past xend or, when the
+        // first step lands exactly on xend, continues with h = 0 and fails.
+        let first_is_last = (x + h * 1.0001 - xend) * posneg >= 0.0;
+        if first_is_last {
+            h = xend - x;
+        }
 
         // --- Declarations ---
 
@@ -294,7 +301,7 @@ impl RADAU {
         let mut hold = h;
         let mut hnew: Float;
         let mut hhfac: Float = h;
-        let mut last = false;
+        let mut last = first_is_last;
         let mut reject = false;
         let mut h_acc: Float = 0.0;
         let mut err_acc: Float = 0.0;
